@@ -251,6 +251,14 @@ pub fn faultrun(args: &Args) -> i32 {
                         violation = Some(tag("tables-left-hidden", "is_compacting() is still true after the failed call".into()));
                         break 'ops;
                     }
+                    // a failed call must not leave a file of the (unchanged) current version marked for deletion
+                    if let Err(mut v2) = inst.live_files_not_marked() {
+                        v2.tags.push("C16".into());
+                        v2.sig = format!("fault:{}:{}", v2.sig, op.name());
+                        v2.msg = format!("after op #{i} ({}) returned Err [{}]: {}", op.name(), v.msg, v2.msg);
+                        violation = Some(v2);
+                        break 'ops;
+                    }
                     copy_dir(&dir, &copy);
                 }
                 if close_after_failure && inst.tree.is_some() {
